@@ -193,10 +193,14 @@ func runC14(c *run.Ctx) {
 	offSpec.Calls = append(append([]C{}, offSpec.Calls...), opt("RequireParseableURLs", false))
 	off := build(offSpec)
 	rw := build(spec.Spec{Name: "rewriter-only", Base: "new", Calls: []C{attrsOn([]string{"src", "href", "cite"}, "", "img", "a", "q", "iframe"), {Op: "RewriteSrc", Fn: "proxy"}}})
+	// nil callbacks, which the builder methods accept: a custom URL check and a src rewriter that are nil
+	nilcb := build(spec.Spec{Name: "nil-callbacks", Base: "new", Calls: []C{attrsOn([]string{"src", "href", "cite"}, "", "img", "a", "q"),
+		{Op: "AllowURLSchemes", Names: []string{"https"}}, {Op: "AllowURLSchemeWithCustomPolicy", Names: []string{"tel"}, Fn: "nil"},
+		{Op: "AllowURLSchemeWithCustomPolicy", Names: []string{"http"}, Fn: "nil"}, {Op: "AllowURLSchemeWithCustomPolicy", Names: []string{"http"}, Fn: "host-example.org"}}})
 	// ---- (a) no panic, all entry points --------------------------------------------
 	entry := func(in []byte) {
 		c.States++
-		for _, b := range []*built{&on, &ugc, &off, &rw} {
+		for _, b := range []*built{&on, &ugc, &off, &rw, &nilcb} {
 			c.Trace(func() string { return b.S.Name + "\n" + run.Q(string(in)) })
 			var pm string
 			if hooks.Available {
